@@ -31,6 +31,20 @@ def swap_params(t):
     return tuple(swap_params(x) for x in t)
 
 
+def norm_unify(t):
+    """a.unify(b, s) and b.unify(a, s) are the same question (that is what the table rule R1 establishes):
+    order the two operands canonically wherever a unify call occurs inside a term."""
+    if isinstance(t, frozenset):
+        return frozenset(norm_unify(x) for x in t)
+    if not isinstance(t, tuple):
+        return t
+    t = tuple(norm_unify(x) for x in t)
+    if t and t[0] == "call" and isinstance(t[1], str) and t[1].endswith("Unifiable::unify") and len(t[2]) >= 2:
+        a, b = sorted(t[2][:2], key=repr)
+        return ("call", t[1], (a, b) + tuple(t[2][2:])) + tuple(t[3:])
+    return t
+
+
 def anon_names(t):
     if not isinstance(t, tuple):
         return t
@@ -48,14 +62,30 @@ def leaf_of(path, unify_suffix="Unifiable::unify"):
     r = path.ret
     if r[0] == "agg" and r[2] == "None":
         return ("FAIL",)
+    def setclass(t):
+        t = strip(t)
+        if t[0] == "param":
+            return "incoming"
+        if t[0] == "field" and t[2] == "Some.0" and t[1][0] == "call" and t[1][1].endswith(unify_suffix):
+            return "running"
+        return "other"
     if r[0] == "agg" and r[2] == "Some":
         pl = strip(dict(r[3]).get("0"))
-        if pl[0] == "param":
-            return ("KEEP",)
+        n_un = sum(1 for e in path.calls() if e["callee"].endswith(unify_suffix))
+        cls = setclass(pl)
+        # the incoming set *is* the running set while no element pair has been unified
+        if cls == "incoming" and n_un == 0:
+            cls = "running"
+        if cls in ("incoming", "running"):
+            return ("KEEP", cls)
         return ("SOME", anon_names(pl))
     if r[0] == "call" and r[1].endswith(unify_suffix):
         a, b = anon_names(strip(r[2][0])), anon_names(strip(r[2][1]))
-        return ("UNIFY", frozenset([a, b]))
+        n_un = sum(1 for e in path.calls() if e["callee"].endswith(unify_suffix)) - 1
+        cls = setclass(r[2][2])
+        if cls == "incoming" and n_un == 0:
+            cls = "running"
+        return ("UNIFY", frozenset([a, b]), cls)
     return ("OTHER", anon_names(r))
 
 
@@ -76,7 +106,7 @@ def run(ctx):
                % (a, b, sorted(sa), b, a, sorted(sb)))
     ctx.floor("R1", n, 28, "unordered pairs of operand kinds")
     # R2 — list/list mirror: first loop iteration (this_list = self, other_list = other)
-    w = Walker(body, max_visits=1)
+    w = Walker(body, max_visits=2)
     sp = ("param", 1, body.locals[1].get("name") or "")
     op = ("param", 2, body.locals[2].get("name") or "")
     ps = w.paths({sp: frozenset(["SLinkedList"]), op: frozenset(["SLinkedList"])})
@@ -91,7 +121,7 @@ def run(ctx):
                 # variant knowledge of element terms (Nil tests) is a condition too
                 if is_param(c[1], 1) or is_param(c[1], 2):
                     continue
-                key = ("variant", anon_names(c[1]))
+                key = norm_unify(("variant", anon_names(c[1])))
                 cs[key] = v
                 continue
             if utable.is_eq_self_other(c):
@@ -100,10 +130,10 @@ def run(ctx):
                 continue
             if utable.is_anon_test(c):
                 continue
-            cs[anon_names(c)] = v
+            cs[norm_unify(anon_names(c))] = v
         if skip:
             continue
-        rows.append((cs, leaf_of(p)))
+        rows.append((cs, norm_unify(leaf_of(p))))
         atoms.update(cs.keys())
     # paths cut at the loop back edge continue with the next pair of nodes: leaf LOOP
     # (max_visits=1 drops them; they are mirror-symmetric by construction: this_list/other_list advance together)
@@ -119,11 +149,11 @@ def run(ctx):
         return set(hits)
 
     bad = None
-    if decided and len(atoms) <= 14:
+    if decided and len(atoms) <= 40:
         # candidate assignments: only those consistent with some path and with its mirror
         for cs, leaf in rows:
-            mcs = {swap_params(k): v for k, v in cs.items()}
-            mleaf = swap_params(leaf)
+            mcs = {norm_unify(swap_params(k)): v for k, v in cs.items()}
+            mleaf = norm_unify(swap_params(leaf))
             # any path compatible with the mirrored condition set must have the mirrored leaf
             comp = [(c2, l2) for c2, l2 in rows if all(c2.get(k, v) == v for k, v in mcs.items())]
             for c2, l2 in comp:
